@@ -108,6 +108,7 @@ structure AInst.ResolvesIn (sc : Scope) (i : AInst) : Prop where
   hres : LibResolves sc i.libSp i.li
   hf : findIdent ((defsOfLib sc i.li).map (·.data)) i.cellSp = some i.di
   target : ∃ d' dv, (defsOfLib sc i.li)[i.di]? = some d' ∧ viewIdentOf d'.data = some dv ∧ lower dv = lower i.viewSp
+  homit : i.libOmit = true → i.li = sc.libs.length
 
 theorem foldlM_contents_AInsts (sc : Scope) (insts : List AInst) (hn : namesOKB (insts.map (·.name)) = true)
     (hps : ∀ i ∈ insts, ∀ p ∈ i.props, p.okB = true) (hres : ∀ i ∈ insts, i.ResolvesIn sc) :
@@ -128,7 +129,7 @@ theorem foldlM_contents_AInsts (sc : Scope) (insts : List AInst) (hn : namesOKB 
       have hr := hres i him
       obtain ⟨d', dv, hd', hview, hdv⟩ := hr.target
       obtain ⟨body, hb, hparse⟩ := parseInstance_AInst sc i hin (hps i him) d' dv hr.hvv hr.hvd hr.hvl hr.hres hr.hf
-        hd' hview hdv
+        hd' hview hdv hr.homit
       obtain ⟨yss, hyss, hfold⟩ := ih (done ++ [i]) (by simp [hsplit])
       refine ⟨(A "instance" :: body) :: yss, by simp [hb, hyss], ?_⟩
       intro st hst
@@ -239,12 +240,24 @@ theorem parseCell_ACell (sc : Scope) (c : ACell) (h : c.OKIn sc) :
   have hne6 : joinDot [S "EDIF", S "view", S "viewType"] ≠ kIDENT := by decide
   have hc1 : ∀ xs, headIs (A "contents" :: xs) "status" = false := by intro xs; rw [headIs_cons]; decide
   have hc2 : ∀ xs, headIs (A "contents" :: xs) "contents" = true := by intro xs; rw [headIs_cons]; decide
-  simp only [parseCell, List.tail_cons, nameDef_AName_new c.name h.name, hk, ht, Bool.not_true,
-    Bool.false_eq_true, if_false, push_mk, pop_mk, List.cons_append, List.nil_append, List.dropLast, hat,
-    setAttr_plain _ _ _ hne1 hne2, joinDot_celltype, loopC, cellItem, hs, hv, if_true, parseView, nameDef_atom,
-    identOfS_atom c.view hvv, setAttr_plain _ _ _ hne3 hne4, hk2, ht2, hat2, setAttr_plain _ _ _ hne5 hne6,
-    joinDot_viewid, joinDot_viewtype, hi, hp1, loopC_lists_nil, hports, viewItem, hc1, hc2, hflat, hcontents, hdup,
-    endC, bind, Except.bind, pure, Except.pure, ACell.elab, ACell.data]
+  cases hemp : (c.insts.isEmpty && c.nets.isEmpty) with
+  | false =>
+    simp only [ACell.contentsSexp, hemp, Bool.false_eq_true, if_false,
+      parseCell, List.tail_cons, nameDef_AName_new c.name h.name, hk, ht, Bool.not_true,
+      push_mk, pop_mk, List.cons_append, List.nil_append, List.dropLast, hat,
+      setAttr_plain _ _ _ hne1 hne2, joinDot_celltype, loopC, cellItem, hs, hv, if_true, parseView, nameDef_atom,
+      identOfS_atom c.view hvv, setAttr_plain _ _ _ hne3 hne4, hk2, ht2, hat2, setAttr_plain _ _ _ hne5 hne6,
+      joinDot_viewid, joinDot_viewtype, hi, hp1, loopC_lists_nil, hports, viewItem, hc1, hc2, hflat, hcontents, hdup,
+      endC, bind, Except.bind, pure, Except.pure, ACell.elab, ACell.data]
+  | true =>
+    simp only [Bool.and_eq_true, List.isEmpty_iff] at hemp
+    simp only [ACell.contentsSexp, hemp.1, hemp.2, List.isEmpty_nil, Bool.and_self, if_true,
+      parseCell, List.tail_cons, nameDef_AName_new c.name h.name, hk, ht, Bool.not_true,
+      Bool.false_eq_true, if_false, push_mk, pop_mk, List.cons_append, List.nil_append, List.dropLast, hat,
+      setAttr_plain _ _ _ hne1 hne2, joinDot_celltype, loopC, cellItem, hs, hv, parseView, nameDef_atom,
+      identOfS_atom c.view hvv, setAttr_plain _ _ _ hne3 hne4, hk2, ht2, hat2, setAttr_plain _ _ _ hne5 hne6,
+      joinDot_viewid, joinDot_viewtype, hi, hp1, loopC_lists_nil, hports,
+      endC, bind, Except.bind, pure, Except.pure, ACell.elab, ACell.data, List.map_nil, List.foldl_nil]
 
 theorem identOf_ACell_data (c : ACell) : identOf c.data = some c.name.ident := by
   have h1 : kIDENT ≠ kCELLTYPE := by decide
